@@ -105,6 +105,7 @@ PROPS["C14"] = {"units": [
     plain_unit("regress", "vfilter", "^TestRegressC14", overlay="full"),
     rapid_unit("delay-filter-free", "vfilter", "^TestC14DelayFilter$", 400, 16 * 3000, overlay="full"),
     rapid_unit("router-delay-e2e", "vnete2e", "^TestC14RouterDelay$", 120, 16 * 800, overlay="plain"),
+    rapid_unit("delay-filter-schedules", "vfilter", "^TestC14DelaySchedules$", 300, 16 * 2500, overlay="full"),
 ]}
 
 PROPS["C13"] = {"units": [
